@@ -216,6 +216,39 @@ def search_failing_input(ctx, summ):
     return n
 
 
+def coqchk_split(ctx):
+    """Independent re-check of everything Props/C07.vo depends on with coqchk, split so that it runs in parallel:
+    one full run (standard library, models, generated tables, lifting lemmas, spec lemmas) and one `-norec` run per
+    vm_compute file and for the two files that only assemble them (each file checked in the context of its admitted
+    dependencies, every dependency being checked by one of the other runs)."""
+    t0 = time.time()
+    pdir = os.path.join(COQ, "theories", "Proofs")
+    heavy = sorted(f[:-2] for f in os.listdir(pdir) if f.startswith("RulesP_") and f.endswith(".v"))
+    jobs = [("full: RulesP + RulesSpecP + Run/RunNamed", "coqchk -o -silent -Q theories RL RL.Proofs.RulesP RL.Proofs.RulesSpecP RL.Run.RunNamed")]
+    jobs += [("norec: " + h, "coqchk -o -silent -Q theories RL -norec RL.Proofs.%s" % h) for h in heavy]
+    jobs += [("norec: RulesAllP", "coqchk -o -silent -Q theories RL -norec RL.Proofs.RulesAllP"),
+             ("norec: Props/C07", "coqchk -o -silent -Q theories RL -norec RL.Props.C07")]
+
+    def one(job):
+        name, cmd = job
+        t = time.time()
+        p = sh("timeout 2400 " + cmd, cwd=COQ, timeout=2500)
+        return name, p.returncode, time.time() - t, p.stdout + p.stderr
+
+    with Lock("coq"):
+        with ThreadPoolExecutor(max_workers=NCPU) as ex:
+            res = list(ex.map(one, jobs))
+    bad = [(n, rc, out[-600:]) for n, rc, _, out in res if rc != 0]
+    if bad:
+        raise CheckError("coqchk rejects a compiled C07 file: %s" % bad[:3])
+    full_out = res[0][3]
+    axs = re.findall(r"^\s+([A-Za-z_][A-Za-z0-9_'.]*)\s*$", full_out.split("Axioms:")[-1].split("* Constants")[0], re.M) if "Axioms:" in full_out else []
+    if axs:
+        raise CheckError("coqchk reports axioms under the C07 development: %s" % axs[:10])
+    ctx.notes.append("coqchk: %d runs ok in %.0fs wall (full run %.0fs, slowest -norec %.0fs); axioms of the full run: <none>" % (
+        len(res), time.time() - t0, res[0][2], max(r[2] for r in res[1:])))
+
+
 def correspondence(ctx, summ):
     """translator vs running code: every name, every date, both observables."""
     names = [n for n, _ in summ["wiring_hols"]]
@@ -325,7 +358,16 @@ def run(ctx):
         return ctx.finish(CMD)
     ctx.notes.append("translator: %d tables, sizes %s, regenerated files changed: %s" % (len(summ["tables"]), summ["table_sizes"], summ["changed"]))
     t0 = time.time()
-    if not proof_stage(ctx, ["theories/Run/RunNamed.vo"]):
+    # common.proof_stage would run one sequential `coqchk RL.Props.C07` in the thorough tier; coqchk has no bytecode VM and
+    # needs well over an hour for the seventeen 84 371-day sweeps, so it is replaced here by coqchk_split (same coverage, parallel)
+    user_no_coqchk = os.environ.get("VERIF_NO_COQCHK") == "1"
+    os.environ["VERIF_NO_COQCHK"] = "1"
+    try:
+        ok = proof_stage(ctx, ["theories/Run/RunNamed.vo"])
+    finally:
+        if not user_no_coqchk:
+            del os.environ["VERIF_NO_COQCHK"]
+    if not ok:
         ctx.notes.append("proof stage failed after %.0fs; searching for the failing (name, date) inside Coq" % (time.time() - t0))
         n = search_failing_input(ctx, summ)
         if n == 0 and not ctx.violations:
@@ -338,15 +380,8 @@ def run(ctx):
     t0 = time.time()
     correspondence(ctx, summ)
     ctx.notes.append("correspondence %.0fs" % (time.time() - t0))
-    if os.environ.get("VERIF_COQCHK") == "1":
-        # independent re-check of the compiled proofs (coqchk has no bytecode VM: it re-evaluates the 84 371-day sweeps with its
-        # own reduction machine and re-checks the standard library; about an hour here) - opt-in
-        t0 = time.time()
-        p = sh("timeout 14000 coqchk -silent -o -Q theories RL RL.Props.C07", cwd=COQ, timeout=14400)
-        out = (p.stdout + p.stderr)
-        ctx.notes.append("coqchk RL.Props.C07: rc=%d in %.0fs: %s" % (p.returncode, time.time() - t0, out[-600:].strip()))
-        if p.returncode != 0 or ("Axioms:" in out and "<none>" not in out.split("Axioms:")[1][:200]):
-            raise CheckError("coqchk rejects Props/C07.vo or reports axioms:\n" + out[-2000:])
+    if ctx.tier == "thorough" and not user_no_coqchk:
+        coqchk_split(ctx)
     ctx.sample({"call": "get_calendar_by_name('nyc').is_holiday/is_bus_day on 2024-01-01..2024-12-31 (hashed)"})
     return ctx.finish(CMD)
 
